@@ -130,6 +130,7 @@ def plan(tier, seed, kf_ids):
                 name = "c04_fromfixed_%s_%s" % (c.tag(ss, ws, 0), it)
                 jobs.append(mk(name, "from_fi", "%s, %s" % (c.ty(ss, ws, 0), it),
                                "From<%s> for %s preserves every value" % (c.alias(ss, ws, 0), it), "From %s->%s" % (c.alias(ss, ws, 0), it)))
+    c.interleave(jobs)
     return {
         "engine_m": ["tofixed"],
         "feature": "c04",
